@@ -187,3 +187,21 @@ Lemma expand_dc_keyerror_refuted_p :
     expand_data_id_dc_x u_current ex_db [] (Some ["detector"]) d [] [] = Err e /\ documented e = false /\
     expand_data_id_x u_current ex_db [] (Some ["detector"]) [("instrument", VStr "Cam")] [] [] = Err EDimensionName.
 Proof. eexists. exists EKeyError. split; [vm_compute; reflexivity|]. repeat split; vm_compute; reflexivity. Qed.
+
+(* expandDataId(expanded DataCoordinate, visit=7): the records CARRIED by the argument (visit 5's) are reused for the
+   overriding key (finding F-C13-expand-dc-stale-carried-records): the result says visit 7 with visit 5's filter, although the
+   stored visit 7 has filter pf2 and the very same values given as a mapping are refused *)
+Definition ex_db2 : db :=
+  [("instrument", [mkRecord [VStr "Cam"] []]);
+   ("band", [mkRecord [VStr "g"] []; mkRecord [VStr "r"] []]);
+   ("physical_filter", [mkRecord [VStr "Cam"; VStr "pf1"] [VStr "g"]; mkRecord [VStr "Cam"; VStr "pf2"] [VStr "r"]]);
+   ("day_obs", [mkRecord [VStr "Cam"; VInt 20240101] []]);
+   ("visit", [mkRecord [VStr "Cam"; VInt 5] [VInt 20240101; VStr "pf1"]; mkRecord [VStr "Cam"; VInt 7] [VInt 20240101; VStr "pf2"]])].
+
+Lemma expand_dc_carried_records_refuted_p :
+  exists a d, expand_data_id_x u_current ex_db2 [] None [("instrument", VStr "Cam"); ("visit", VInt 5)] [] [] = Ok a /\
+    expand_data_id_dc_x u_current ex_db2 [] None a [("visit", VInt 7)] [] = Ok d /\
+    dc_get d "visit" = Some (VInt 7) /\ dc_get d "physical_filter" = Some (VStr "pf1") /\
+    rows ex_db2 "visit" = [mkRecord [VStr "Cam"; VInt 5] [VInt 20240101; VStr "pf1"]; mkRecord [VStr "Cam"; VInt 7] [VInt 20240101; VStr "pf2"]] /\
+    expand_data_id_x u_current ex_db2 [] None (dmapping d) [] [] = Err EInconsistent.
+Proof. do 2 eexists. split; [vm_compute; reflexivity|]. split; [vm_compute; reflexivity|]. repeat split; vm_compute; reflexivity. Qed.
